@@ -22,13 +22,20 @@ ASSUMPTIONS = [
 TRUSTED = ["harness/pipeline.py (tie)", "lxml"]
 
 
-def sharing_doc(rng):
+PAINT_FORMS = [" url(#%s)", "url(#%s) ", "url('#%s')", 'url( #%s )', "url(#%s) red", "url(#%s) none", "url(#%s)red", "url(#%s)#00f", "DOT"]
+
+
+def sharing_doc(rng, force_form=None):
     """documents stressing shared references"""
     F = docgen.Features(use=True, gradients=True, strokes=rng.random() < 0.5, clips=rng.random() < 0.3, nested_svg=rng.random() < 0.2,
                         transforms=True, degenerate=True, display=True)
     g = docgen.Gen(rng, F)
     src = g.document()
     k = rng.random()
+    if force_form:
+        if not g.grad_ids:
+            return sharing_doc(rng, force_form)
+        k = 0.75
     if k < 0.3 and g.grad_ids:
         # make generated-id collisions likely
         gid = rng.choice(g.grad_ids)
@@ -48,7 +55,7 @@ def sharing_doc(rng):
     elif k < 0.8 and g.grad_ids:
         # the other ways CSS writes a paint reference, and ids with characters outside [A-Za-z0-9_-]
         gid = rng.choice(g.grad_ids)
-        form = rng.choice([" url(#%s)", "url(#%s) ", "url('#%s')", 'url( #%s )', "url(#%s) red", "url(#%s) none", "DOT"])
+        form = force_form or rng.choice(PAINT_FORMS)
         if form == "DOT":
             new = gid + rng.choice([".1", ".a", ":b", "/sky", "+b", "~1", "@2"])
             src = src.replace('"%s"' % gid, '"%s"' % new).replace("#%s)" % gid, "#%s)" % new).replace('"#%s"' % gid, '"#%s"' % new)
@@ -127,7 +134,7 @@ def refs_check(text):
         if not isinstance(el.tag, str):
             continue
         for k, v in el.attrib.items():
-            m = re.match(r"""^url\(\s*['"]?#([^)'"\s]+)['"]?\s*\)(\s+\S.*)?$""", v.strip())
+            m = re.match(r"""^url\(\s*['"]?#([^)'"\s]+)['"]?\s*\)(\s*\S.*)?$""", v.strip())
             if m:
                 t = ids.get(m.group(1))
                 if t is None:
@@ -149,6 +156,9 @@ def correspondence(ctx):
     n = 800 if ctx.thorough() else 130
     rng = ctx.rng
     cases = []
+    for form in PAINT_FORMS:
+        # every way of writing a paint reference appears in every run
+        cases.append({"src": sharing_doc(rng, form), "ndigits": 3, "allow_text": False, "drop": False})
     for _ in range(n):
         cases.append(gen_case(rng))
     runs = [pipeline.Run(c["src"], ops_of(c)) for c in cases]
